@@ -11,7 +11,7 @@ from pbt import core, specs
 from pbt.universe import vd
 
 LEVEL = 'exploration'
-RULE = ('Task graphs over six typed task types: nodes with scalar parameters and task-holding parameters whose value is a bare '
+RULE = ('Task graphs over seven typed task types (one of them a subclass of another task type, inheriting parameters): nodes with scalar parameters and task-holding parameters whose value is a bare '
         'task, or a list/tuple/dict nest (depth 1-4) of tasks of several types and scalars; shared sub-tasks; the same parameter '
         'holding a single task in one instance and a collection in another; heterogeneous instances of one type (a later instance '
         'has a dependency the first lacks); 1-6 top-level tasks in generated order; all four directions. The Mermaid text is '
@@ -84,8 +84,8 @@ def build_tasks(spec: dict):
         kw = {f: shape(sh) for f, sh in n['fields'].items()}
         if n['type'] == 'DA':
             kw = {'x': n['id']}
-        else:
-            first_scalar = [f for f in vd.ALL_FIELDS[n['type']] if f not in vd.TASK_FIELDS[n['type']]]
+        elif n['type'] in vd.STR_FIELD:
+            kw[vd.STR_FIELD[n['type']]] = f'text-{n["id"]}-{n["type"]}'
         objs[n['id']] = vd.TYPES[n['type']](**kw)
     return objs
 
@@ -198,7 +198,7 @@ def diagram_spec(draw):
     n = draw(st.integers(1, 9))
     nodes = []
     for i in range(n):
-        t = 'DA' if i == 0 else draw(st.sampled_from(['DA', 'DB', 'DC', 'DD', 'DE', 'DF', 'DC', 'DD']))
+        t = 'DA' if i == 0 else draw(st.sampled_from(['DA', 'DB', 'DC', 'DD', 'DE', 'DF', 'DC', 'DD', 'DG']))
         fields = {}
         avail = list(range(i))
         for f in vd.TASK_FIELDS[t]:
